@@ -159,10 +159,37 @@ func (x *Exec) run() {
 	st.alloc = Term{S: "alloc@0", Sort: "Int"}
 	st.assume(app("Bool", "<", mathInt(0), st.alloc))
 	sig := x.fnObj.Type().(*types.Signature)
+	pos := 0
 	addParam := func(v *types.Var, isRecv bool) {
-		if v == nil || v.Name() == "_" || v.Name() == "" {
+		if !isRecv {
+			pos++
+		}
+		if v == nil {
 			return
 		}
+		if v.Name() == "_" || v.Name() == "" {
+			// unnamed parameter: still gets an entry constant (used by interface refinement)
+			if _, isFn := v.Type().Underlying().(*types.Signature); isFn {
+				x.paramVals = append(x.paramVals, Value{})
+				return
+			}
+			c := fmt.Sprintf("p!_%d", pos)
+			srt := vc.sortOf(v.Type())
+			vc.declare(c, srt)
+			val := Value{T: Term{S: c, Sort: srt}, Ty: v.Type()}
+			vc.assumeFacts(st, val.T, val.Ty)
+			if !isRecv {
+				x.paramVals = append(x.paramVals, val)
+			}
+			return
+		}
+		defer func() {
+			if !isRecv {
+				x.paramVals = append(x.paramVals, x.params[v.Name()])
+			} else {
+				x.recvVal = x.params[v.Name()]
+			}
+		}()
 		if fs, ok := v.Type().Underlying().(*types.Signature); ok {
 			cl := &Closure{Sym: "fn!" + sanitize(v.Name()), Sig: fs}
 			val := Value{Ty: v.Type(), Fn: cl}
@@ -205,6 +232,7 @@ func (x *Exec) run() {
 	}
 	// entry snapshot (before requires, so that requires are evaluated in it)
 	x.entry = st.clone()
+	x.entry0 = st.clone()
 	env := x.entryEnv(st)
 	env.st = st
 	for _, r := range x.ct.Requires {
@@ -277,6 +305,7 @@ func (x *Exec) run() {
 		}
 	}
 	x.frameObligations(final)
+	x.refinementObligations(final, post)
 	vc.obls = append(vc.obls, &Obligation{Name: vc.fn + "#cover.exit", Kind: "cover", Func: vc.fn, PC: exitPC, Goal: tFalse, Cover: true, Text: "exit reachable (contract not contradictory)"})
 }
 
@@ -420,4 +449,88 @@ func VerifyLemma(ld *Loader, pkg *Pkg, lm *Lemma) (res *FuncResult) {
 	vc.obls = append(vc.obls, &Obligation{Name: vc.fn + "#cover.exit", Kind: "cover", Func: vc.fn, PC: st.pc, Goal: tFalse, Cover: true, Text: "lemma hypotheses satisfiable"})
 	res.Obls = vc.obls
 	return res
+}
+
+// refinementObligations: a method of a type implementing an interface that
+// has a contract for that method must satisfy the interface contract
+// (interface requires => own requires is checked separately at entry).
+func (x *Exec) refinementObligations(final *State, post *SpecEnv) {
+	sig := x.fnObj.Type().(*types.Signature)
+	if sig.Recv() == nil || x.pkg.Contracts == nil {
+		return
+	}
+	recvT := sig.Recv().Type()
+	for _, key := range x.pkg.Contracts.Order {
+		ict := x.pkg.Contracts.Funcs[key]
+		dot := strings.Index(key, ".")
+		if strings.HasPrefix(key, "(") || dot < 0 || key[dot+1:] != x.fnObj.Name() {
+			continue
+		}
+		tn, ok := x.pkg.Types.Scope().Lookup(key[:dot]).(*types.TypeName)
+		if !ok {
+			continue
+		}
+		it, ok := tn.Type().Underlying().(*types.Interface)
+		if !ok || !types.Implements(recvT, it) {
+			continue
+		}
+		var im *types.Func
+		for i := 0; i < it.NumMethods(); i++ {
+			if it.Method(i).Name() == x.fnObj.Name() {
+				im = it.Method(i)
+			}
+		}
+		if im == nil {
+			continue
+		}
+		isig := im.Type().(*types.Signature)
+		env := *post
+		env.vars = map[string]Value{}
+		for k, v := range post.vars {
+			env.vars[k] = v
+		}
+		env.vars["self"] = x.recvVal
+		old := map[string]Value{"self": x.recvVal}
+		for i := 0; i < isig.Params().Len() && i < len(x.paramVals); i++ {
+			n := isig.Params().At(i).Name()
+			if n != "" && n != "_" {
+				env.vars[n] = x.paramVals[i]
+				old[n] = x.paramVals[i]
+			}
+		}
+		for k, v := range x.params {
+			if _, ok := old[k]; !ok {
+				old[k] = v
+			}
+		}
+		env.oldVars = old
+		for i, e := range ict.Ensures {
+			parts := splitConj(e.Expr)
+			for j, p := range parts {
+				g, facts := env.evalWithFacts(p)
+				st := final.clone()
+				for _, f := range facts {
+					st.assume(f)
+				}
+				name := fmt.Sprintf("refine[%s][%d]", key, i)
+				if len(parts) > 1 {
+					name = fmt.Sprintf("refine[%s][%d.%d]", key, i, j)
+				}
+				x.obligeNamed(st, name, "refine", g, x.fd.Pos(), "interface contract "+key+": "+e.Text)
+			}
+		}
+		// interface precondition must imply the implementation's precondition
+		pre := &SpecEnv{vc: x.vc, pkg: x.pkg, vars: map[string]Value{}, st: x.entry0, old: x.entry0, allocOld: x.entry0.alloc, exec: x, tparams: x.tparamMap()}
+		for k, v := range old {
+			pre.vars[k] = v
+		}
+		st := x.entry0.clone()
+		for _, r := range ict.Requires {
+			st.assume(pre.evalBool(r.Expr))
+		}
+		pre.st = st
+		for i, r := range x.ct.Requires {
+			x.obligeNamed(st, fmt.Sprintf("refine-pre[%s][%d]", key, i), "refine", pre.evalBool(r.Expr), x.fd.Pos(), "interface precondition implies: "+r.Text)
+		}
+	}
 }
